@@ -260,6 +260,9 @@ package parse
 
 //@ func Mediatype
 //@   ensures[S]  true
+// the scan ends at the end of the input or at a byte that can start neither a parameter separator nor padding: after the
+// media type and after every parameter, spaces are skipped and a ';' continues with the next parameter
+//@   ensures[F,C16,perpath,local] @all-parameters: i#2 >= n || (b#1[i#2] != ' ' && b#1[i#2] != ';')
 //@   loop * candidate 0 <= i
 //@   loop * candidate i <= len(b)
 //@   loop * candidate i <= n
